@@ -12,7 +12,7 @@ passed=set(); failed=set()
 for l in open(sys.argv[1]):
     try: e=json.loads(l)
     except: continue
-    if e.get('Test') and '/' not in e['Test']:
+    if e.get('Test'):
         k=e['Package']+'::'+e['Test']
         if e['Action']=='pass': passed.add(k)
         if e['Action']=='fail': failed.add(k)
